@@ -31,6 +31,7 @@ def main():
     ap.add_argument("--workers", type=int, default=4)
     ap.add_argument("--checks", default=",".join(ALL))
     ap.add_argument("--update", action="store_true")
+    ap.add_argument("--listed", action="store_true", help="per seed: only its own check and the checks its meta.json lists under regression")
     a = ap.parse_args()
     checks = a.checks.split(",")
     metas = {}
@@ -60,7 +61,10 @@ def main():
             if not ok:
                 out["error"] = "patch does not apply"
                 return out
-            for ck in checks:
+            cks = checks
+            if a.listed:
+                cks = sorted({m["breaks_property"]} | {r["check"] for r in m.get("regression") or []})
+            for ck in cks:
                 rc, s, tail = M.run_check(ck, d, c)
                 out["checks"][ck] = {"rc": rc, "new": (s or {}).get("new", []) if s else None}
                 if rc == 2:
@@ -91,7 +95,8 @@ def main():
                 if v["new"]:
                     rep.append("%s: %s" % (ck, ", ".join(v["new"][:4])))
                     reg.append({"check": ck, "expect": v["new"][:6]})
-            m["static_checks_run"] = checks
+            if not a.listed:
+                m["static_checks_run"] = checks
             m["reported_by"] = rep
             m["regression"] = reg
             if rep:
